@@ -14,6 +14,7 @@ import (
 	"github.com/tellor-io/layer/x/bridge/types"
 
 	"cosmossdk.io/collections"
+	"cosmossdk.io/math"
 
 	sdk "github.com/cosmos/cosmos-sdk/types"
 )
@@ -186,9 +187,10 @@ func (k Keeper) DecodeDepositReportValue(ctx context.Context, reportValue string
 	}
 	amountDecimalConverted := amountBigInt.Div(amountBigInt, big.NewInt(1e12))
 	tipDecimalConverted := tipBigInt.Div(tipBigInt, big.NewInt(1e12))
-	amountCoin := sdk.NewInt64Coin(layer.BondDenom, amountDecimalConverted.Int64())
+	// a uint256 divided by 10^12 does not always fit int64: convert without truncation
+	amountCoin := sdk.NewCoin(layer.BondDenom, math.NewIntFromBigInt(amountDecimalConverted))
 	amountCoins := sdk.NewCoins(amountCoin)
-	tipCoin := sdk.NewInt64Coin(layer.BondDenom, tipDecimalConverted.Int64())
+	tipCoin := sdk.NewCoin(layer.BondDenom, math.NewIntFromBigInt(tipDecimalConverted))
 	tipCoins := sdk.NewCoins(tipCoin)
 
 	return layerRecipientAddress, amountCoins, tipCoins, nil
